@@ -2,35 +2,26 @@ SPECIFICATION Spec
 CONSTANTS
   NV = 2
   StabV = {}
-  HasHf = FALSE
-  NP = 1
+  HasHf = TRUE
+  NP = 3
   UseQueue = TRUE
   SkipQueue = FALSE
-  Faults = TRUE
+  Faults = FALSE
   FaultKinds = {"crash", "reject", "third"}
-  MaxC = 8
+  MaxC = 40
   RepStatuses = {"SUCCESSFUL", "FAILED"}
-  Atomic = FALSE
+  Atomic = TRUE
   ReportFine = FALSE
   AutoApprove = TRUE
-  Opts = {}
-  ReportOnce = TRUE
-  MaxLevel = 26
-  EmitJson = FALSE
-  PruneOnlyOwned = TRUE
+  Opts = {"byp", "wait", "unwait", "nooct"}
+  ReportOnce = FALSE
+  MaxLevel = 100
+  EmitJson = TRUE
+  PruneOnlyOwned = FALSE
   PushOnlyChanged = FALSE
   AtomicPush = TRUE
   FixSelect = TRUE
   FixDirect = TRUE
 CONSTRAINT Bound
 VIEW View
-INVARIANT C01_Incl
-INVARIANT C02_AllOrNone
-INVARIANT C05_Select
-INVARIANT C19_Children
-PROPERTY C03_Green
-PROPERTY C08_FF
-PROPERTY C08_Foreign
-PROPERTY C12_Held
-PROPERTY C20_EntryFate
 CHECK_DEADLOCK FALSE
